@@ -12,6 +12,16 @@ from . import problems as P
 
 
 def make_loss(cfg):
+    if cfg.get("system"):
+        from . import systems as S
+
+        sy = cfg["system"]
+        spec = {"kind": cfg["kind"], "dim": cfg["dim"], "hetero": None, "param_batch": None,
+                "box": {"min": cfg["min"], "max": cfg["max"]}, "unknowns": sy["unknowns"], "eq_params": cfg["eq_params"],
+                "equations": sy["equations"], "w": {"dyn_loss": 1.0}, "ic": None, "obs": None, "boundary": None, "norm": None,
+                "batch": {"t": [0.5], "x": [[0.0] * max(cfg["dim"], 1)], "cartesian": True}}
+        loss, params, _ = S.build_system(spec)
+        return loss, params, spec
     spec = {"kind": cfg["kind"], "dim": cfg["dim"], "net": cfg["net"], "eq_params": cfg["eq_params"],
             "eq": {"coef": [cfg["coef"]]}, "w": {}, "ic": None, "norm": None, "boundary": None, "obs": None,
             "hetero": None, "param_batch": None, "box": {"min": cfg["min"], "max": cfg["max"]},
@@ -62,6 +72,12 @@ class Snap:
 
 
 def residual_sq(spec, z):
+    if "equations" in spec:  # system loss: sum over the equations of the squared residual norm
+        from . import systems as S
+
+        eqp = {k: np.asarray(v, dtype=np.float64) for k, v in spec["eq_params"].items()}
+        feats = S.sys_features_ref(spec, np.asarray(z, dtype=np.float64), eqp)
+        return float(sum(np.sum((np.asarray(e["coef"], dtype=np.float64) @ feats) ** 2) for e in spec["equations"].values()))
     pn = tuple(sorted(spec["eq_params"]))
     eqp = {k: np.asarray(v, dtype=np.float64) for k, v in spec["eq_params"].items()}
     r, _ = P.ref_residual(spec["eq"]["coef"], pn, spec["net"], np.asarray(z, dtype=np.float64), eqp, eqp)
@@ -159,6 +175,19 @@ def rar_cfg_strategy(kinds=("ode", "statio", "nonstatio")):
             m = max(cfg["sel_t"], cfg["sel_x"])
             if cfg["cand_t"] * cfg["cand_x"] < m:
                 cfg["cand_x"] = m
+        cfg["system"] = None
+        if kind in ("ode", "statio") and draw(st.integers(0, 2)) == 0:
+            # system loss (the selection criterion is the sum over the equations of the squared residual norms);
+            # space-time systems are not generated: the library squares the SUM of the residuals there, which the
+            # statement does not pin either way
+            from .systems import nfeat
+
+            U = draw(st.integers(1, 2))
+            names = ["u", "v"][:U]
+            cfg["system"] = {
+                "unknowns": {n: {"field": draw(field_specs(din, 1, nsin=(1, 2), gauss=False)), "transform": "none"} for n in names},
+                "equations": {e: {"coef": [[draw(q16(-2, 2)) for _ in range(nfeat(U, 1))] for _ in range(draw(st.integers(1, 2)))]}
+                              for e in ["e1", "e2"][: draw(st.integers(1, 2))]}}
         cfg["iters"] = draw(st.integers(cfg["start"] + cfg["every"] + 1, min(25, cfg["start"] + 4 * cfg["every"] + 4)))
         return cfg
 
